@@ -50,7 +50,21 @@ package agreement
 // leaves (apart from all-set), leaves deeper than 3 nested structs (covered as their own
 // registry entry when msgp-generated), JSON encodings, msgp.Raw holders.
 //
-// Mutants (bin/mut, quick tier): see checks.d/C40.json / final report.
+// Known finding on the unchanged tree (key C40:nonnil-pointer-to-empty-struct:transactions.
+// HeartbeatTxnFields, see /verif/findings/C40-hb-pointer-to-empty): attributed precisely — the key
+// is used only when nil-ing exactly the non-nil pointers to all-zero structs makes both
+// encoders agree.
+//
+// Mutants (bin/mut, quick tier; all DETECTED, each by a key other than the known finding):
+//   data/transactions/msgp_gen.go Transaction.MarshalMsg: Lease omitempty test -> `if false`
+//       (field emitted when empty)                 -> C40:encoders-differ (zero value already)
+//   agreement/msgp_gen.go proposalValue.MsgIsZero drops the OriginalPeriod conjunct
+//       -> C40:msgiszero:agreement.proposalValue and C40:encoders-differ on rawVote / bundles
+//   data/transactions/msgp_gen.go Transaction.UnmarshalMsg: "fv" stored into LastValid
+//       -> C40:reencode (decode + re-encode changes the bytes)
+//   data/transactions/msgp_gen.go Header.MarshalMsg: "lx" emitted before "lv" (wrong only when
+//       BOTH are present)                          -> C40:encoders-differ on the two-hot
+//       {LastValid, Lease} and on all-set; no one-hot instance shows it
 
 import (
 	"bytes"
